@@ -136,7 +136,7 @@ def spec (cfg : Cfg) (s : St) (c : Call) : St × Except Exc Res :=
       let (s', _) := AbsMap.apply s (.flushAll (some d.toNat) nrv)
       (s', .ok (.bool true))
     | .error _ => (s, .error .illegalInput)
-  | .version => (s, .ok (.bytes (Server.versionLine.drop 8)))
-  | .quit => (s, .ok .none)
+  | .version => ((AbsMap.apply s .version).1, .ok (.bytes (Server.versionLine.drop 8)))
+  | .quit => ((AbsMap.apply s .quit).1, .ok .none)
   | .raw _ _ => (s, .error .unknownCommand)      -- not part of the map contract
 end ApiSpec
